@@ -350,6 +350,166 @@ theorem closestVector_lattice {q : Int} {rb : M2} {t : V2} {o : CvpOut} (h : clo
       congr 1 <;> ring
 
 
+/-! ### a Gauss-reduced basis starts with a shortest vector of the lattice -/
+theorem quad_ge_one_pos {x y : Int} (h : ¬(x = 0 ∧ y = 0)) : 1 ≤ x * x - x * y + y * y := by
+  have h4 : 4 * (x * x - x * y + y * y) = (2 * x - y) * (2 * x - y) + 3 * (y * y) := by ring
+  by_cases hy : y = 0
+  · subst hy
+    have hx : x ≠ 0 := fun hx => h ⟨hx, rfl⟩
+    have : 1 ≤ x * x := by
+      rcases Int.lt_or_gt_of_ne hx with h' | h'
+      · nlinarith
+      · nlinarith
+    linarith
+  · have : 1 ≤ y * y := by
+      rcases Int.lt_or_gt_of_ne hy with h' | h'
+      · nlinarith
+      · nlinarith
+    have h0 : 0 ≤ (2 * x - y) * (2 * x - y) := mul_self_nonneg _
+    omega
+
+theorem quad_ge_one_neg {x y : Int} (h : ¬(x = 0 ∧ y = 0)) : 1 ≤ x * x + x * y + y * y := by
+  have := quad_ge_one_pos (x := x) (y := -y) (by intro h'; exact h ⟨h'.1, by omega⟩)
+  have e : x * x - x * -y + -y * -y = x * x + x * y + y * y := by ring
+  rw [e] at this; exact this
+
+/-- integer core: `B ≤ x²B + 2xy·n + y²A` for `0 ≤ B ≤ A`, `|2n| ≤ B`, `(x,y) ≠ 0` -/
+theorem reduced_form_min {A B n x y : Int} (hB : 0 ≤ B) (hBA : B ≤ A) (h1 : 2 * n ≤ B) (h2 : -B ≤ 2 * n)
+    (h : ¬(x = 0 ∧ y = 0)) : B ≤ x * x * B + 2 * (x * y) * n + y * y * A := by
+  have hyy : 0 ≤ y * y := mul_self_nonneg y
+  have hA : y * y * B ≤ y * y * A := Int.mul_le_mul_of_nonneg_left hBA hyy
+  rcases Int.lt_or_le (x * y) 0 with hxy | hxy
+  · -- xy < 0: 2xy n ≥ xy B
+    have : x * y * B ≤ x * y * (2 * n) := by nlinarith
+    have hm := quad_ge_one_neg h
+    have : B * 1 ≤ B * (x * x + x * y + y * y) := Int.mul_le_mul_of_nonneg_left hm hB
+    nlinarith
+  · have : -(x * y * B) ≤ x * y * (2 * n) := by nlinarith
+    have hm := quad_ge_one_pos h
+    have : B * 1 ≤ B * (x * x - x * y + y * y) := Int.mul_le_mul_of_nonneg_left hm hB
+    nlinarith
+
+theorem normV_eval (q : Int) (r : M2) (x y : Int) :
+    normV q (r.eval ⟨x, y⟩) = x * x * normV q r.col0 + 2 * (x * y) * bilV q r.col1 r.col0 + y * y * normV q r.col1 := by
+  simp only [normV, bilV, norm, bil, M2.eval, M2.col0, M2.col1]; ring
+
+/-- **the first column returned by `quat_dim2_lattice_short_basis` is a shortest non-zero vector of the lattice
+    spanned by the output** (= the input lattice, `shortBasis_unimodular`), q ≥ 0 -/
+theorem shortBasis_shortest {q : Int} (hq : 0 ≤ q) {m r : M2} (h : shortBasis q m = some r) {x y : Int}
+    (hxy : ¬(x = 0 ∧ y = 0)) : normV q r.col0 ≤ normV q (r.eval ⟨x, y⟩) := by
+  obtain ⟨g1, g2⟩ := shortBasis_gauss_reduced hq h
+  rw [normV_eval]
+  exact reduced_form_min (normV_nonneg hq _) (shortBasis_ordered h) g1 g2 hxy
+
+theorem eval_mul2 (a b : M2) (w : V2) : (mul2 a b).eval w = a.eval (b.eval w) := by
+  simp only [mul2, M2.eval]; congr 1 <;> ring
+
+/-- … of the INPUT lattice: every non-zero integer combination of the input columns is at least as long as the first
+    output column -/
+theorem shortBasis_shortest_input {q : Int} (hq : 0 ≤ q) {m r : M2} (h : shortBasis q m = some r) {x y : Int}
+    (hxy : ¬(x = 0 ∧ y = 0)) : normV q r.col0 ≤ normV q (m.eval ⟨x, y⟩) := by
+  obtain ⟨u, hu, hdet⟩ := shortBasis_unimodular h
+  -- w with u·w = (x,y)
+  obtain ⟨w, hw⟩ : ∃ w : V2, u.eval w = ⟨x, y⟩ := by
+    rcases hdet with hd | hd
+    · refine ⟨⟨u.a11 * x - u.a01 * y, -u.a10 * x + u.a00 * y⟩, ?_⟩
+      simp only [M2.eval, M2.det] at hd ⊢
+      congr 1
+      · have : u.a00 * (u.a11 * x - u.a01 * y) + u.a01 * (-u.a10 * x + u.a00 * y) = (u.a00 * u.a11 - u.a01 * u.a10) * x := by ring
+        rw [this, hd]; ring
+      · have : u.a10 * (u.a11 * x - u.a01 * y) + u.a11 * (-u.a10 * x + u.a00 * y) = (u.a00 * u.a11 - u.a01 * u.a10) * y := by ring
+        rw [this, hd]; ring
+    · refine ⟨⟨-(u.a11 * x - u.a01 * y), -(-u.a10 * x + u.a00 * y)⟩, ?_⟩
+      simp only [M2.eval, M2.det] at hd ⊢
+      congr 1
+      · have : u.a00 * -(u.a11 * x - u.a01 * y) + u.a01 * -(-u.a10 * x + u.a00 * y) = -((u.a00 * u.a11 - u.a01 * u.a10) * x) := by ring
+        rw [this, hd]; ring
+      · have : u.a10 * -(u.a11 * x - u.a01 * y) + u.a11 * -(-u.a10 * x + u.a00 * y) = -((u.a00 * u.a11 - u.a01 * u.a10) * y) := by ring
+        rw [this, hd]; ring
+  have hwne : ¬(w.x = 0 ∧ w.y = 0) := by
+    intro hz
+    have : u.eval w = ⟨0, 0⟩ := by
+      obtain ⟨wx, wy⟩ := w
+      simp only at hz
+      simp [M2.eval, hz.1, hz.2]
+    rw [hw] at this
+    simp only [V2.mk.injEq] at this
+    exact hxy this
+  have := shortBasis_shortest hq h hwne
+  have e : r.eval ⟨w.x, w.y⟩ = m.eval ⟨x, y⟩ := by
+    rw [hu, eval_mul2]
+    have : (⟨w.x, w.y⟩ : V2) = w := by cases w; rfl
+    rw [this, hw]
+  rw [e] at this
+  exact this
+
+/-! ### closest vector: the residual is reduced against the (orthogonalised) basis — nearest-plane quality -/
+theorem norm_nonneg' {q : Int} (hq : 0 ≤ q) (x y : Int) : 0 ≤ norm q x y := by
+  unfold norm
+  exact Int.add_nonneg (mul_self_nonneg _) (Int.mul_nonneg (mul_self_nonneg _) hq)
+
+/-- `quat_dim2_lattice_closest_vector` (q ≥ 0): with `b` = first column, `a` = second column and
+    `a* = N(b)·a - <a,b>·b` (the orthogonalised second vector, scaled as in the C code), the residual satisfies
+    `|2<r,b>| ≤ N(b)` and `|2·N(b)·<a*,r>| ≤ N(a*)`: its coordinates along `b` and `a*` are at most 1/2. -/
+theorem closestVector_reduced {q : Int} (hq : 0 ≤ q) {rb : M2} {t : V2} {o : CvpOut} (h : closestVector q rb t = some o) :
+    (2 * bil q o.tmc.x o.tmc.y rb.a00 rb.a10 ≤ norm q rb.a00 rb.a10 ∧
+      -(norm q rb.a00 rb.a10) ≤ 2 * bil q o.tmc.x o.tmc.y rb.a00 rb.a10) ∧
+    (let nb := norm q rb.a00 rb.a10
+     let bl := bil q rb.a01 rb.a11 rb.a00 rb.a10
+     let as0 := rb.a01 * nb - rb.a00 * bl
+     let as1 := rb.a11 * nb - rb.a10 * bl
+     2 * (bil q as0 as1 o.tmc.x o.tmc.y * nb) ≤ norm q as0 as1 ∧
+       -(norm q as0 as1) ≤ 2 * (bil q as0 as1 o.tmc.x o.tmc.y * nb)) := by
+  simp only [closestVector, coefOrth] at h
+  split at h
+  · simp at h
+  · rename_i c1 hc1
+    split at hc1
+    · simp at hc1
+    · rename_i hnas
+      simp only [Option.some.injEq] at hc1
+      split at h
+      · simp at h
+      · rename_i hna
+        simp only [Option.some.injEq] at h
+        subst h
+        have hnapos : 0 < norm q rb.a00 rb.a10 := by
+          have := norm_nonneg' hq rb.a00 rb.a10; omega
+        have hnaspos : 0 < norm q (rb.a01 * norm q rb.a00 rb.a10 - rb.a00 * bil q rb.a01 rb.a11 rb.a00 rb.a10)
+            (rb.a11 * norm q rb.a00 rb.a10 - rb.a10 * bil q rb.a01 rb.a11 rb.a00 rb.a10) := by
+          have := norm_nonneg' hq (rb.a01 * norm q rb.a00 rb.a10 - rb.a00 * bil q rb.a01 rb.a11 rb.a00 rb.a10)
+            (rb.a11 * norm q rb.a00 rb.a10 - rb.a10 * bil q rb.a01 rb.a11 rb.a00 rb.a10)
+          omega
+        have s0 := roundedDiv_spec (bil q (t.x - rb.a01 * c1) (t.y - rb.a11 * c1) rb.a00 rb.a10)
+          (norm q rb.a00 rb.a10) hnapos
+        have s1 := roundedDiv_spec
+          (bil q (rb.a01 * norm q rb.a00 rb.a10 - rb.a00 * bil q rb.a01 rb.a11 rb.a00 rb.a10)
+            (rb.a11 * norm q rb.a00 rb.a10 - rb.a10 * bil q rb.a01 rb.a11 rb.a00 rb.a10) t.x t.y * norm q rb.a00 rb.a10)
+          (norm q (rb.a01 * norm q rb.a00 rb.a10 - rb.a00 * bil q rb.a01 rb.a11 rb.a00 rb.a10)
+            (rb.a11 * norm q rb.a00 rb.a10 - rb.a10 * bil q rb.a01 rb.a11 rb.a00 rb.a10)) hnaspos
+        rw [hc1] at s1
+        constructor
+        · have e : bil q (t.x - rb.a01 * c1 - rb.a00 * roundedDiv (bil q (t.x - rb.a01 * c1) (t.y - rb.a11 * c1) rb.a00 rb.a10) (norm q rb.a00 rb.a10))
+              (t.y - rb.a11 * c1 - rb.a10 * roundedDiv (bil q (t.x - rb.a01 * c1) (t.y - rb.a11 * c1) rb.a00 rb.a10) (norm q rb.a00 rb.a10))
+              rb.a00 rb.a10
+            = bil q (t.x - rb.a01 * c1) (t.y - rb.a11 * c1) rb.a00 rb.a10
+              - roundedDiv (bil q (t.x - rb.a01 * c1) (t.y - rb.a11 * c1) rb.a00 rb.a10) (norm q rb.a00 rb.a10) * norm q rb.a00 rb.a10 := by
+            simp only [bil, norm]; ring
+          simp only
+          rw [e]; exact s0
+        · simp only
+          have e : bil q (rb.a01 * norm q rb.a00 rb.a10 - rb.a00 * bil q rb.a01 rb.a11 rb.a00 rb.a10)
+                (rb.a11 * norm q rb.a00 rb.a10 - rb.a10 * bil q rb.a01 rb.a11 rb.a00 rb.a10)
+                (t.x - rb.a01 * c1 - rb.a00 * roundedDiv (bil q (t.x - rb.a01 * c1) (t.y - rb.a11 * c1) rb.a00 rb.a10) (norm q rb.a00 rb.a10))
+                (t.y - rb.a11 * c1 - rb.a10 * roundedDiv (bil q (t.x - rb.a01 * c1) (t.y - rb.a11 * c1) rb.a00 rb.a10) (norm q rb.a00 rb.a10))
+                * norm q rb.a00 rb.a10
+            = bil q (rb.a01 * norm q rb.a00 rb.a10 - rb.a00 * bil q rb.a01 rb.a11 rb.a00 rb.a10)
+                (rb.a11 * norm q rb.a00 rb.a10 - rb.a10 * bil q rb.a01 rb.a11 rb.a00 rb.a10) t.x t.y * norm q rb.a00 rb.a10
+              - c1 * norm q (rb.a01 * norm q rb.a00 rb.a10 - rb.a00 * bil q rb.a01 rb.a11 rb.a00 rb.a10)
+                (rb.a11 * norm q rb.a00 rb.a10 - rb.a10 * bil q rb.a01 rb.a11 rb.a00 rb.a10) := by
+            simp only [bil, norm]; ring
+          rw [e]; exact s1
+
 /-! ### enumeration: soundness of `found = 1` -/
 section enum
 variable (cond : V2 → Option Elem) (q : Int) (tmc : V2) (b : M2) (nb : Int)
